@@ -171,7 +171,7 @@ class C02:
     model_imports = ['From DM Require Import Run.SC02 Run.RC02.']
     exhaustive = False
     rule = ('3 column types x 6 derivations of the source (natural, ops.sort, ops.shuffle, a selection/slice of a larger '
-            'table, a << b, a selection grown again and filled in) x cell vectors of length 0..6 (thorough: ..12) drawn from a 12-15 value alphabet per type '
+            'table, a << b, a selection grown again and filled in) x cell vectors of length 0..6 (thorough: ..10) drawn from a 12-15 value alphabet per type '
             '(ints incl. 2^53+1 / int64 bounds, floats incl. nan, +-inf, -0.0, text, None) x references {int, float incl. '
             'nan/+-inf/-0.0, text, numeric text, None, bool, same-length list/tuple (incl. the column\'s own cells, '
             'wrong length), set (0-3 members incl. nan), 12 plain def/lambda functions, 6 types} x all six operators per '
@@ -201,6 +201,10 @@ class C02:
         'IntColumn == object / != object is excluded from the claim and reported: the code tests `other is int`',
         'elements of sequences and members of sets are compared with plain == (a NaN member matches nothing)',
         'predicates must not depend on the Python class of a number (NumericColumn hands numpy scalars to them)',
+        'set members beyond 2^53 are not generated for a FloatColumn (numpy.float64 == int rounds the int; the L1 model '
+        'compares set members exactly)',
+        'a FloatColumn is not compared with a list mixing an integer beyond 2^53 and a number beyond int64 (NumPy then '
+        'builds an object array and compares exactly; that dtype switch is not modelled)',
         '_getrowidkey is modelled as lookup by row id (argsort/searchsorted of NumericColumn not modelled separately)',
         'source unchanged / result is a new object are checked on the Python side (dump before/after, identity, '
         'np.shares_memory), not inside Coq',
@@ -394,9 +398,17 @@ class C02:
                 m = n + rng.choice([-1, 1, 2]) if n else 1
                 return {'t': 'seq', 'v': [pyobs.enc(rng.choice(dom)) for _ in range(max(m, 0))]}
             pool = dom if c < 0.85 else sc
-            return {'t': rng.choice(['seq', 'tuple']), 'v': [pyobs.enc(rng.choice(pool)) for _ in range(n)]}
+            vs = [rng.choice(pool) for _ in range(n)]
+            if kind == 'KFloat' and any(type(x) in (int, float) and math.isfinite(x) and abs(x) >= 2 ** 63 for x in vs):
+                # a list holding an integer beyond int64 becomes an object array, which compares exactly where a
+                # numeric array rounds integers beyond 2^53: that dtype switch is not modelled
+                vs = [2 ** 53 if type(x) is int and abs(x) > 2 ** 53 else x for x in vs]
+            return {'t': rng.choice(['seq', 'tuple']), 'v': [pyobs.enc(x) for x in vs]}
         if which == 'set':
             pool = dom if rng.random() < 0.8 else sc
+            if kind == 'KFloat':
+                # numpy.float64 == <int beyond 2^53> rounds the int; the L1 model compares set members exactly
+                pool = [x for x in pool if not (type(x) is int and abs(x) > 2 ** 53)]
             return {'t': 'set', 'v': [pyobs.enc(rng.choice(pool)) for _ in range(rng.randint(0, 3))]}
         if which == 'pred':
             return {'t': 'pred', 'v': rng.randrange(len(PREDICATES)) if rng.random() < 0.3 else rng.randrange(N_TOTAL_PREDS)}
@@ -428,9 +440,9 @@ class C02:
                 add(dict(base, ref={'t': 'pred', 'v': i}))
             add(dict(base, ref={'t': 'set', 'v': []}))
             add(dict(base, ref={'t': 'set', 'v': [pyobs.enc(NAN)]}))
-        per_len = 3 if tier == 'quick' else 12
-        maxlen = 6 if tier == 'quick' else 12
-        refs_per_source = 5 if tier == 'quick' else 8
+        per_len = 3 if tier == 'quick' else 8
+        maxlen = 6 if tier == 'quick' else 10
+        refs_per_source = 5 if tier == 'quick' else 6
         whiches = ['scalar', 'seq', 'set', 'pred', 'type', 'scalar', 'seq', 'set']
         for kind in KINDS:
             for deriv in DERIVS:
